@@ -1,5 +1,5 @@
 (* Props/C10.v — Inference terminates and is non-destructive on every topology. *)
-From NIR Require Import Model.Graph Proofs.InferProofs Proofs.IdemProofs.
+From NIR Require Import Model.Graph Proofs.InferProofs Proofs.IdemProofs Proofs.InferSimProofs.
 
 (* TERMINATION on every directed multigraph (cycles, self-loops, parallel edges, fan-in/out, unreachable
    components, any edge order): some fuel always suffices ... *)
@@ -48,12 +48,11 @@ Theorem c10_frame : forall fuel es st k n, assoc k (st_ch st) = Some n ->
     (is_graph n = true -> n' = n).
 Proof. exact run_frame. Qed.
 
-(* a child that is not the target of any edge is not touched at all *)
-Theorem c10_untouched_partial : forall fuel es st k, incl (st_ready st) es -> ~ In k (map snd es) ->
-  assoc k (st_ch (fst (run fuel es st))) = assoc k (st_ch st).
-Proof. exact run_untouched. Qed.
-(* (PARTIAL with respect to the property's "touches no node that is not reachable from an Input": proved
-   for children that are no edge target; for unreachable edge targets it is checked on the code by the harness.) *)
+(* TOUCHES NO OTHER NODE: a child that is not reachable from an Input child along edges is left exactly as it was *)
+Theorem c10_untouched : forall ch es gi go m g' oc k,
+  infer_types (Graph ch es gi go m) = (g', oc) -> ~ reachable ch es k ->
+  exists ch' gi' go', g' = Graph ch' es gi' go' m /\ assoc k ch' = assoc k ch.
+Proof. exact infer_touches_only_reachable. Qed.
 
 (* IDEMPOTENCE: running it a second time changes nothing.  Proved for every graph (cycles, inconsistent edges,
    fan-in with different shapes, undefined Conv/Pool/Flatten types, nested graphs among the children ...) in which no
@@ -93,7 +92,7 @@ Print Assumptions c10_fuel_irrelevant.
 Print Assumptions c10_step_frame.
 Print Assumptions c10_names.
 Print Assumptions c10_frame.
-Print Assumptions c10_untouched_partial.
+Print Assumptions c10_untouched.
 Print Assumptions c10_graph_frame.
 Print Assumptions c10_idempotent.
 Print Assumptions c10_idempotent_canonical.
